@@ -38,9 +38,19 @@ ASSUMPTIONS = [
 EXPECTED_PROBES = ["F2", "F4", "winner_changed_by_fault", "all_fits_failed", "exact_tie_in_sort_key", "bound_active", "decoy_fit_before", "constraint_checked"]
 
 PLAN = {
-    "quick": {"workloads": 48, "variants": 150, "wall_budget": 45.0, "min_variants": 10, "wall_limit": 1500.0, "per_job_limit": 900.0},
-    "thorough": {"workloads": 640, "variants": 1200, "wall_budget": 200.0, "min_variants": 30, "wall_limit": 8 * 3600.0, "per_job_limit": 2400.0},
+    "quick": {"workloads": 48, "variants": 150, "wall_budget": 240.0, "min_variants": 10, "wall_limit": 2400.0, "per_job_limit": 1200.0},
+    "thorough": {"workloads": 640, "variants": 1200, "wall_budget": 1500.0, "min_variants": 30, "wall_limit": 10 * 3600.0, "per_job_limit": 3600.0},
 }
+
+
+def variants_for(wl, tier):
+    # measured: 'auto'/'auto' workloads (36 fits per run) 519 ms per run, explicit lists 39 ms per run
+    n = 60 if wl["kwargs"].get("method") == "auto" and wl["kwargs"].get("weight") == "auto" else 300
+    return n if tier == "quick" else n * 6
+
+
+def workload_meta(wl):
+    return {"kind": "auto" if wl["kwargs"].get("method") == "auto" and wl["kwargs"].get("weight") == "auto" else "list"}
 
 
 def gen_workload(rng, tier):
